@@ -1015,13 +1015,13 @@ def run(ctx):
             return G.KLExpansion_Full(grid)
         return G.CustomKL(grid, cov_func=lambda a, b: np.exp(-abs(a - b)), trunc_term=n)
     EMODELS = ["matrix", "jacobian", "direction-jacobian", "fun+adjoint"]
-    ETARGETS = ["likelihood", "posterior", "multi"]
+    ETARGETS = ["likelihood", "posterior", "likelihood", "multi"]
     ecases = []
     for k in range(36 * S):
         side = "domain" if k % 3 else "range"
         gk = (["Step", "KL", "KLFull", "CustomKL"] if side == "domain" else ["Step", "KL"])[(k // 3) % (4 if side == "domain" else 2)]
         mk = EMODELS[(k // 2) % len(EMODELS)]
-        tgt = ETARGETS[(k // 5) % len(ETARGETS)]
+        tgt = ETARGETS[k % len(ETARGETS)]
         fd = (k % 9 == 4)
         ecases.append((side, gk, mk, tgt, fd))
     for side, gk, mk, tgt, fd in ecases:
